@@ -306,7 +306,10 @@ def St.stop (s : St) (err : Bool) : St :=
                  opened.map (fun i => "close:" ++ fileName s.cfg i),
                fileExists := (List.range s.cfg.flens.length).map (fun i => s.fileExists.getD i false || opened.contains i),
                known := (List.range s.cfg.flens.length).map (fun i => s.known.getD i false || opened.contains i),
-               leaked := s.leaked }
+               leaked := s.leaked,
+               -- missing files were re-created by the dropped allocation: the bitfield is forgotten (C05-F1)
+               bf := if opened.any (fun i => !(s.fileExists.getD i false)) then none else s.bf,
+               persisted := if opened.any (fun i => !(s.fileExists.getD i false)) && s.bf.isSome then none else s.persisted }
     else s
   let s := if s.verifier then { s with verifier := false, gateRead := false } else s
   { s with stopAnn := true }
@@ -578,6 +581,8 @@ def handleAllocationDone (m : M) (hasExisting hasMissing : Bool) : M :=
              done := List.replicate s.n false, wflag := List.replicate s.n false,
              peers := s.peers.map fun p => { p with has := List.replicate s.n false } }
   let ready (m : M) : M := onSt (processQueued m) fun s => ({ s with acceptor := true }).startDls
+  -- files were missing: the bitfield is forgotten, also in the resume db (fix for finding C05-F1)
+  let m := onSt m fun s => if hasMissing && s.bf.isSome then { s with bf := none, persisted := none } else s
   let fresh (m : M) : M :=
     let m := onSt m fun s => (({ s with bf := some (List.replicate s.n false) }).resetCompletion).markPaddingPieces
     let (s, c) := m.1.checkCompletion
